@@ -3,8 +3,10 @@ CONSTANTS
   Chains <- TChains
   NX = 4
   CondTab <- MCCondTab
+  CondDen <- MCCondDen
   BaseTab <- MCBaseTab
   MaxN = 3
+  IncDom = {0, 1, 2}
   MaxLen = 4
   IterArgs = {0, 3}
   StoreArgs = {0, 2}
